@@ -167,10 +167,14 @@ func solveFile0(cfg *SolverCfg, key, z3file, cvcfile string) solveResult {
 }
 
 func solveFileRace(cfg *SolverCfg, z3file, cvcfile string) solveResult {
+	return solveFileRaceCtx(context.Background(), cfg, z3file, cvcfile)
+}
+
+func solveFileRaceCtx(parent context.Context, cfg *SolverCfg, z3file, cvcfile string) solveResult {
 	// stage 1: z3-new and cvc5 raced with the short timeout (each decides goals the other does not)
 	var r solveResult
 	{
-		ctx1, cancel1 := context.WithCancel(context.Background())
+		ctx1, cancel1 := context.WithCancel(parent)
 		ch1 := make(chan solveResult, 3)
 		go func() { ch1 <- runSolver(ctx1, solverBins[0].name, solverBins[0].bin, cfg.FirstTimeout, z3file) }()
 		go func() { ch1 <- runSolver(ctx1, solverBins[1].name, solverBins[1].bin, cfg.FirstTimeout, z3file) }()
@@ -188,7 +192,10 @@ func solveFileRace(cfg *SolverCfg, z3file, cvcfile string) solveResult {
 		cancel1()
 	}
 	// stage 2: race
-	ctx, cancel := context.WithCancel(context.Background())
+	if parent.Err() != nil {
+		return r
+	}
+	ctx, cancel := context.WithCancel(parent)
 	defer cancel()
 	ch := make(chan solveResult, len(solverBins))
 	for _, s := range solverBins {
@@ -381,9 +388,53 @@ func (p *Program) runPipeline(cfg *SolverCfg, tasks []Task) ([]*Oblig, []*Unit) 
 			j.inst.Status = "unsat"
 			return
 		}
+		fullFile := j.full
+		if j.inst.Expect != "" {
+			fullFile = ""
+		}
 		switch {
 		case j.inst.Expect == "sat":
 			r = runSolver(context.Background(), solverBins[0].name, solverBins[0].bin, c.FirstTimeout, j.zf)
+		case fullFile != "":
+			// the relevance filter dropped definitions: the filtered and the complete query are
+			// decided side by side; only the complete one can refute the obligation
+			fc := fullFile + ".cvc5.smt2"
+			data, _ := os.ReadFile(fullFile)
+			os.WriteFile(fc, []byte(strings.Replace(string(data), "(set-option :produce-models true)\n", "(set-option :produce-models true)\n(set-logic ALL)\n", 1)), 0o644)
+			ch := make(chan solveResult, 2)
+			pctx, pcancel := context.WithCancel(context.Background())
+			go func() {
+				x := solveFileRaceCtx(pctx, c, j.zf, j.cf)
+				x.out = "[filtered] " + x.out
+				ch <- x
+			}()
+			go func() {
+				x := solveFileRaceCtx(pctx, c, fullFile, fc)
+				if pctx.Err() == nil {
+					x = confirmSat(c, x, fullFile, fc)
+				}
+				x.solver += "(full)"
+				ch <- x
+			}()
+			for k := 0; k < 2; k++ {
+				x := <-ch
+				filtered := strings.HasPrefix(x.out, "[filtered] ")
+				if x.status == "unsat" {
+					r = x
+					break
+				}
+				if !filtered {
+					r = x // the complete query decides (sat / undecided)
+					if x.status == "sat" || x.status == "disagree" {
+						break
+					}
+				}
+			}
+			pcancel()
+			os.Remove(fc)
+			if strings.HasSuffix(r.solver, "(full)") {
+				j.inst.SMTFile = fullFile
+			}
 		case race:
 			r = confirmSat(c, solveFileRace(c, j.zf, j.cf), j.zf, j.cf)
 		default:
@@ -391,12 +442,19 @@ func (p *Program) runPipeline(cfg *SolverCfg, tasks []Task) ([]*Oblig, []*Unit) 
 		}
 		if c.Confirm && r.status == "unsat" && j.inst.Expect == "" {
 			for _, s := range solverBins {
-				if s.name == r.solver {
+				if strings.HasPrefix(r.solver, s.name) {
 					continue
 				}
 				f := j.zf
+				if strings.HasSuffix(r.solver, "(full)") {
+					f = fullFile
+				}
 				if strings.HasPrefix(s.name, "cvc5") {
-					f = j.cf
+					f2 := f + ".c.smt2"
+					data, _ := os.ReadFile(f)
+					os.WriteFile(f2, []byte(strings.Replace(string(data), "(set-option :produce-models true)\n", "(set-option :produce-models true)\n(set-logic ALL)\n", 1)), 0o644)
+					f = f2
+					defer os.Remove(f2)
 				}
 				r2 := runSolver(context.Background(), s.name, s.bin, c.FullTimeout, f)
 				if r2.status == "sat" {
@@ -409,17 +467,6 @@ func (p *Program) runPipeline(cfg *SolverCfg, tasks []Task) ([]*Oblig, []*Unit) 
 					break
 				}
 			}
-		}
-		if r.status != "unsat" && j.full != "" && j.inst.Expect == "" {
-			// the filtered query dropped definitions: decide on the complete one
-			fc := j.full + ".cvc5.smt2"
-			data, _ := os.ReadFile(j.full)
-			os.WriteFile(fc, []byte(strings.Replace(string(data), "(set-option :produce-models true)\n", "(set-option :produce-models true)\n(set-logic ALL)\n", 1)), 0o644)
-			r2 := confirmSat(c, solveFileRace(c, j.full, fc), j.full, fc)
-			os.Remove(fc)
-			r2.secs += r.secs
-			r = r2
-			j.inst.SMTFile = j.full
 		}
 		j.inst.Status, j.inst.Solver, j.inst.Output = r.status, r.solver, r.out
 		j.inst.Secs += r.secs
